@@ -205,13 +205,139 @@ fn nt_c14(_l: &[&'static str], e: &Ev, _d: &DiffResult) -> bool {
     ev(e, "import_again") > 0 && ev(e, "import") >= 3
 }
 
+/// Import paths written in several spellings ("m0", "./m0", "lib//m1", "lib/./m1"): the loader
+/// serves every spelling it is asked for, with a text that names the spelling it was asked for.
+/// Whether two spellings denote one module or two is the loader's and the interpreter's business;
+/// what must hold either way is judged directly on yarel's output: no load tag is printed twice
+/// (top-level code runs at most once per module), every failed import is an ImportError (a cycle is
+/// reported, not recursed into), two imports under the same spelling give the same object with its
+/// state intact, and the run ends normally.
+fn spellings_case(bytes: &[u8]) -> (String, Vec<(String, String)>) {
+    use crate::rd::Rd;
+    let mut rd = Rd::new(bytes, 2_000);
+    const BASES: [&str; 3] = ["m0", "m1", "lib/m2"];
+    fn spell(base: &str, k: usize) -> String {
+        match (base.rsplit_once('/'), k) {
+            (_, 0) => base.to_string(),
+            (None, 1) => format!("./{}", base),
+            (None, 2) => format!(".//{}", base),
+            (None, _) => format!("././{}", base),
+            (Some((d, f)), 1) => format!("{}//{}", d, f),
+            (Some((d, f)), 2) => format!("{}/./{}", d, f),
+            (Some((d, f)), _) => format!("./{}/{}", d, f),
+        }
+    }
+    let mut mods: Vec<(String, String)> = Vec::new();
+    for b in BASES.iter() {
+        // what this module imports is the same under every spelling of its own path
+        let dep = if rd.chance(2, 3) { Some((rd.below(3), rd.below(4))) } else { None };
+        for k in 0..4 {
+            let s = spell(b, k);
+            let mut text = format!("print(\"load {}\");\nvar tag = \"{}\";\nvar n = 0;\nfn bump() {{ n = n + 1; return n; }}\n", s, s);
+            if let Some((db, dk)) = dep {
+                let d = spell(BASES[db], dk);
+                text.push_str(&format!("try {{\n  import \"{}\" as dep;\n  print(\"{} sees \" + dep.tag);\n}} catch e {{\n  print(\"in {}: \" + String.from(type(e)));\n}}\n", d, s, s));
+            }
+            text.push_str(&format!("print(\"loaded {}\");\n", s));
+            mods.push((s, text));
+        }
+    }
+    let mut main = String::new();
+    let n = 2 + rd.below(7);
+    let mut bound: Vec<(String, String)> = Vec::new();
+    for i in 0..n {
+        let s = if !bound.is_empty() && rd.chance(1, 3) {
+            bound[rd.below(bound.len())].1.clone()
+        } else {
+            spell(BASES[rd.below(3)], rd.below(4))
+        };
+        let var = format!("b{}", i);
+        if rd.chance(1, 4) {
+            main.push_str(&format!("fn ld{}() {{\n  import \"{}\" as q;\n  return q;\n}}\nvar {} = nil;\ntry {{\n  {} = ld{}();\n  {} = ld{}();\n}} catch e {{\n  print(\"in main: \" + String.from(type(e)));\n}}\n", i, s, var, var, i, var, i));
+        } else {
+            main.push_str(&format!("var {} = nil;\ntry {{\n  import \"{}\" as q{};\n  {} = q{};\n}} catch e {{\n  print(\"in main: \" + String.from(type(e)));\n}}\n", var, s, i, var, i));
+        }
+        // same spelling as an earlier binding: same object, state carried over
+        if let Some((earlier, _)) = bound.iter().find(|(_, sp)| *sp == s) {
+            main.push_str(&format!("if {} != nil && {} != nil {{\n  print(\"same {}\");\n  var c1 = {}.bump();\n  var c2 = {}.bump();\n  print(\"counts {}\");\n}}\n", var, earlier, "${" .to_string() + &format!("{} == {}", var, earlier) + "}", earlier, var, "${c2 - c1}"));
+        }
+        bound.push((var, s));
+    }
+    main.push_str("print(\"end of main\");\n");
+    (main, mods)
+}
+
+fn spellings_render(bytes: &[u8]) -> String {
+    let (main, mods) = spellings_case(bytes);
+    let used: Vec<&(String, String)> = mods.iter().filter(|(p, _)| main.contains(&format!("\"{}\"", p))).collect();
+    let mut s = main.clone();
+    for (p, m) in used {
+        s.push_str(&format!("--- module {} ---\n{}", p, m));
+    }
+    s
+}
+
+fn spellings_run(bytes: &[u8], ctx: &mut crate::engine::CaseCtx) -> crate::engine::Verdict {
+    use crate::engine::Verdict;
+    use crate::yrun::{self, End, RunCfg};
+    let (main, mods) = spellings_case(bytes);
+    let o = yrun::run_source(&main, &RunCfg { modules: mods, ..RunCfg::default() });
+    let fail = |sig: &str, what: String| Verdict::Fail { sig: sig.to_string(), detail: format!("{}\noutput {:?}\n{}", what, o.out, spellings_render(bytes)) };
+    match &o.end {
+        End::Panic(p) => return fail(&format!("panic:{}", crate::props::c03::sig_of_panic(p)), format!("yarel panicked: {}", p)),
+        End::Err(k, m) => {
+            if yrun::is_fuel(m) {
+                return Verdict::Discard("fuel");
+            }
+            return fail("guarded-imports-end-in-error", format!("every import is guarded, yet the run ended with {:?}: {:?}", k, m));
+        }
+        End::Ok(_) => {}
+    }
+    let mut seen = std::collections::BTreeMap::new();
+    let mut again = false;
+    for l in &o.out {
+        if let Some(t) = l.strip_prefix("load ") {
+            let c = seen.entry(t.to_string()).or_insert(0u32);
+            *c += 1;
+            if *c > 1 {
+                return fail("module-body-ran-twice", format!("the top-level code of the module served as {:?} ran {} times", t, c));
+            }
+        }
+        if l.starts_with("in ") && !l.ends_with("<class ImportError>") {
+            return fail("import-failure-not-import-error", format!("a failed import surfaced as {:?}", l));
+        }
+        if l.starts_with("same ") {
+            again = true;
+            if l != "same true" {
+                return fail("same-path-different-module-object", "two imports under one spelling gave different objects".to_string());
+            }
+        }
+        if l.starts_with("counts ") && l != "counts 1" {
+            return fail("module-state-reset-by-reimport", format!("a counter kept in the module did not advance by one across two bindings of the same spelling: {:?}", l));
+        }
+    }
+    if o.out.last().map(|s| s.as_str()) != Some("end of main") {
+        return fail("main-did-not-finish", "main did not reach its last statement".to_string());
+    }
+    ctx.label("gen:spellings");
+    if again {
+        ctx.label("gen:spelling_reimported");
+    }
+    if o.out.iter().any(|l| l.starts_with("in ")) {
+        ctx.label("gen:spelling_cycle_reported");
+    }
+    Verdict::Pass { nontrivial: again || seen.len() >= 2, hash: crate::rd::fnv64(main.as_bytes()) }
+}
+
 pub fn c14() -> DiffProp {
+    let mut spellings = Fam::custom("import_spellings", Box::new(|_b: &[u8]| (crate::ast::Program { main: vec![], modules: vec![] }, vec![])), 15_000, 150_000, 60);
+    spellings.direct = Some((spellings_render, spellings_run));
     DiffProp {
         id: "C14",
-        families: vec![Fam::custom("import_graphs", Box::new(crate::gen_mod::program), 60_000, 500_000, 260)],
-        rule: "cases: import graphs over 1-6 generated modules (some missing, some that do not compile) with forward, backward and self edges (DAGs, diamonds, self-loops, longer cycles); imports at top level, inside functions called once or twice, inside try blocks and under aliases; every module prints load tags, defines the globals `tag` and `counter` (as main does) and functions that read and write them, reads built-ins (type, Error, StopIter, iterators) and tries to read a global that only main defines; some module bodies fail part-way (an unguarded import of a cycle or a missing module, or a throw) and are imported again afterwards; importers read and set module attributes, call module functions, run a module's function as a fiber body across two yields, pass their own closures into module functions, catch exceptions raised inside module functions (with and without finally), and print their own globals after every step; main compares module objects. Served by an in-memory loader. Oracle: reference interpreter (module registry: absent / loading / loaded, one module object per path, globals per module) vs yarel; import failures compared by class. Non-trivial: a module was imported again after it had been loaded and >=3 imports ran; distinct by program text.",
+        families: vec![Fam::custom("import_graphs", Box::new(crate::gen_mod::program), 60_000, 500_000, 260), spellings],
+        rule: "cases: import graphs over 1-6 generated modules (some missing, some that do not compile) with forward, backward and self edges (DAGs, diamonds, self-loops, longer cycles); imports at top level, inside functions called once or twice, inside try blocks and under aliases; every module prints load tags, defines the globals `tag` and `counter` (as main does) and functions that read and write them, reads built-ins (type, Error, StopIter, iterators) and tries to read a global that only main defines; some module bodies fail part-way (an unguarded import of a cycle or a missing module, or a throw) and are imported again afterwards; importers read and set module attributes, call module functions, run a module's function as a fiber body across two yields, pass their own closures into module functions, catch exceptions raised inside module functions (with and without finally), and print their own globals after every step; main compares module objects. Served by an in-memory loader. Oracle: reference interpreter (module registry: absent / loading / loaded, one module object per path, globals per module) vs yarel; import failures compared by class. Non-trivial: a module was imported again after it had been loaded and >=3 imports ran; distinct by program text. Family import_spellings: paths written as m0, ./m0, .//m0, lib//m2, lib/./m2, ... with a loader that serves every spelling (its text names the spelling it was asked for), modules importing each other under other spellings (cycles), main importing 2-8 spellings at top level and inside functions called twice; judged without the reference interpreter by a validity predicate that holds whether or not spellings are identified: no load tag printed twice, every failed import an ImportError, two bindings of one spelling the same object with its counter advancing, main runs to its end.",
         nontrivial: nt_c14,
-        floors: vec![("ev:import_again", 3_000), ("ev:import_cycle", 1_000), ("gen:import_in_function", 3_000), ("gen:bad_module", 1_000), ("gen:module_identity", 300), ("gen:set_attribute", 1_000)],
+        floors: vec![("ev:import_again", 3_000), ("ev:import_cycle", 1_000), ("gen:import_in_function", 3_000), ("gen:bad_module", 1_000), ("gen:module_identity", 300), ("gen:set_attribute", 1_000), ("gen:spelling_reimported", 2_000), ("gen:spelling_cycle_reported", 1_000)],
         assumptions: vec!["every import statement in a generated module body is guarded, so a module body never ends in an exception (re-importing a module whose body threw is not defined by the statement)"],
     }
 }
